@@ -99,6 +99,8 @@ type SchedCfg struct {
 
 // Sched is the one-thread-at-a-time scheduler.
 type Sched struct {
+	// stalls: tasks that are passed over for a while (see Stall, StallWhen).
+	stalls  []*stall
 	rc      *RunCtx
 	cfg     SchedCfg
 	mu      sync.Mutex
@@ -511,6 +513,29 @@ func (s *Sched) Run() string {
 				return enabled[i].Task == s.running && enabled[j].Task != s.running
 			})
 		}
+		// Stalled tasks (a slow client, a busy instance) are passed over for a while, as long as anybody else can run.
+		for _, st := range s.stalls {
+			if st.when != nil {
+				for _, p := range parked {
+					if p.Task == st.task && st.when(p) {
+						st.from, st.when = s.Step, nil // the stall begins where the task has just arrived
+						break
+					}
+				}
+			}
+			if st.when == nil && s.Step >= st.from && s.Step < st.from+st.n {
+				var others []*Park
+				for _, p := range enabled {
+					if p.Task != st.task {
+						others = append(others, p)
+					}
+				}
+				if len(others) > 0 {
+					enabled = others
+					s.rc.Stats.Inc("steps_with_a_stalled_task", 1)
+				}
+			}
+		}
 		idx := s.rc.Ch.Pick(len(enabled), s.cfg.StayBias)
 		p := enabled[idx]
 		var r Resume
@@ -532,6 +557,23 @@ func (s *Sched) Run() string {
 	s.Unwind()
 	s.rc.Stats.Inc("steps", int64(s.Step))
 	return s.Outcome
+}
+
+// Stall makes the scheduler pass a task over for n steps from a given step on, whenever another thread can run.
+type stall struct {
+	task *Task
+	from int
+	n    int
+	when func(*Park) bool
+}
+
+func (s *Sched) Stall(t *Task, from, n int) {
+	s.stalls = append(s.stalls, &stall{task: t, from: from, n: n})
+}
+
+// StallWhen is Stall beginning at the first step at which a parked thread of the task satisfies when.
+func (s *Sched) StallWhen(t *Task, when func(*Park) bool, n int) {
+	s.stalls = append(s.stalls, &stall{task: t, n: n, when: when})
 }
 
 func onlyBackground(parked []*Park) bool {
